@@ -106,7 +106,13 @@ class Check:
                     self.report("crash:" + where2, "the driver process died inside relex/slog-agent code (twice in a row) at %s while running: %s\n%s" % (where2, " ".join(args)[:300], head),
                                 {"stderr.txt": (p2.stderr or "")[-20000:], "command.txt": " ".join(args)})
                     raise Inconclusive("driver process died inside the code under verification at %s" % where2)
-            raise Inconclusive("driver failed rc=%d: %s\n%s" % (p.returncode, " ".join(args), (p.stderr or p.stdout)[-3000:]))
+            # not attributable to the code under verification (runtime fatal error, OOM kill, harness fault): one more try
+            log("[vh] driver failed rc=%d (%s ...), retrying once" % (p.returncode, " ".join(args)[:80]))
+            p3 = subprocess.run([self.build_vh()] + args, capture_output=True, text=True, timeout=timeout, cwd=cwd, env=env or os.environ)
+            if p3.returncode == 0:
+                self.inconclusive.append("driver run failed once with rc=%d and succeeded when repeated: %s" % (p.returncode, " ".join(args)[:200]))
+                return p3
+            raise Inconclusive("driver failed rc=%d: %s\n%s" % (p3.returncode, " ".join(args), (p3.stderr or p3.stdout)[-3000:]))
         return p
 
     # ------------------------------------------------------------------ TLC
